@@ -907,6 +907,22 @@ func (g *Gen) builtin(st *State, b *ssa.Builtin, c *ssa.CallCommon, rt types.Typ
 	case "delete":
 		g.note("map", "delete on map not modelled")
 		g.bumpMaps(st)
+		// oracle / ghost clause on the deletion:  callee mapdelete:<name>(k)
+		if g.spec != nil && len(c.Args) == 2 {
+			name := "mapdelete:" + g.describeValue(c.Args[0])
+			for _, cs := range g.spec.Callees {
+				if cs.Name != name {
+					continue
+				}
+				g.calleeUse[cs]++
+				binds := map[string]Val{}
+				if len(cs.Params) > 0 {
+					binds[cs.Params[0]] = args[1]
+				}
+				g.applyContract(st, contractApp{what: "callee " + cs.Name, binds: binds, requires: cs.Requires, sets: cs.Sets, pure: true, rt: types.NewTuple(),
+					clausePrefix: "callee " + cs.Name + " ", ownNames: true, mutGhosts: cs.MutGhosts})
+			}
+		}
 		return TupleV{}
 	case "clear":
 		if sv, ok := args[0].(SliceV); ok {
